@@ -8,6 +8,7 @@ META = {
     "design_ref": "DESIGN.md §5.5",
 }
 MODULES = ["contracts.taskspec"]
+ONLY = {"contracts.taskspec": ["NestedContainer.__dask_tokenize__"]}
 LEVEL = "proof"
 EXPLANATION = "order/class part of the container identity proved; congruence of == / tokens with evaluation bounded over a node universe"
 TRUSTED = ["VC generator /verif/vf", "z3", "tokenize deterministic (C12 assumed)"]
